@@ -226,7 +226,7 @@ fn post(rt: &mut Runtime) {
 const RULE: &str = "generated: ancestor (all insertions present) with unique (k-1)-mers on both strands, 1-3 indels of length 1..min(10,k-1) at least 4k apart and 2k from the ends, carrier sets non-empty and proper over 3-8 samples, every derived sample re-checked for unique (k-1)-mers (rejections counted), samples randomly reverse-complemented, k in {11,15,21,31}, threads 1/2/4. Oracle per record: before+REF+after (or its reverse complement) occurs in exactly the samples genotyped 0, before+ALT+after in exactly those genotyped 1, '.' iff neither or both; the record matches one planted indel by length and carriers, none twice, none unmatched; aggregate recall >= 90% (checked when >= 200 planted). Non-trivial: >= 1 indel reported.";
 
 fn stages(tier: Tier) -> Vec<Box<dyn Stage>> {
-    vec![gen_stage_show("indels", RULE, tier.pick(640, 10_000), 150, case_strategy, check, |c| match materialise(c) {
+    vec![gen_stage_show("indels", RULE, tier.pick(1600, 20_000), 150, case_strategy, check, |c| match materialise(c) {
         Ok(m) => json!({"k": c.k, "ancestor": lossy(&m.ancestor), "indels": m.indels.iter().map(|(p, l, cs)| json!({"pos": p, "len": l, "deleted_in": cs})).collect::<Vec<_>>()}),
         Err(e) => json!({"rejected": e}),
     })]
